@@ -794,6 +794,14 @@ fn main() {
         let (ps, shares) = vdaf.shard_with_random(b"c12", &vec![1u64, 0, 1, 1], &nonce, &tape.bytes(10, 128)).unwrap();
         check(&run, Subject { name: format!("Prio3SumVecField64(proofs=3){sfx}"), vdaf, vk: tape.array(14), ctx: b"c12".to_vec(), param: (), nonce, ps, shares, rounds: 1, strict: true, strict_content: false, budget, corrupt_all_bytes: !q, not_judged: Default::default(), reevaluations: Default::default() });
     }
+    // a LARGE Prio3 instance: the persisted continuation (it holds the 80 KB output share) exceeds 64 KiB
+    {
+        let vdaf = Prio3::new_sum_vec(2, 1, 5000, 70).unwrap();
+        let nonce: [u8; 16] = tape.array(21);
+        let m: Vec<u128> = (0..5000).map(|i| (i % 3 == 0) as u128).collect();
+        let (ps, shares) = vdaf.shard_with_random(b"c12", &m, &nonce, &tape.bytes(22, 128)).unwrap();
+        check(&run, Subject { name: "Prio3SumVec(len=5000)".into(), vdaf, vk: tape.array(23), ctx: b"c12".to_vec(), param: (), nonce, ps, shares, rounds: 1, strict: true, strict_content: false, budget: 1, corrupt_all_bytes: false, not_judged: Default::default(), reevaluations: Default::default() });
+    }
     // (iii) Poplar1, every level of bits 1..3 and selected levels of longer inputs (2 rounds)
     let mut pl: Vec<(usize, usize)> = vec![(1, 0), (2, 0), (2, 1), (3, 0), (3, 1), (3, 2), (9, 7), (9, 8)];
     if !q {
